@@ -355,7 +355,8 @@ Proof.
   { intros q A' B' C'. destruct (udp_main_sim q _ _ (canon_sim e)) as [S1 S2]. destruct (S2 A') as [S3 S4].
     rewrite A' in S1. apply osim_none_l in S1. rewrite S1, S3, S4. auto. }
   destruct p; try (apply K; assumption).
-  destruct (delay_error d) as [k|]; [destruct (leaf_matches udp_wait_clauses k)|];
+  all: try (destruct (delay_error d) as [k|]; [destruct (leaf_matches udp_wait_clauses k)|]);
+    try destruct udp_first_parse_protected; try destruct (leaf_matches udp_wait_clauses KGeneric);
     solve [apply K; assumption | simpl in *; discriminate].
 Qed.
 
